@@ -23,6 +23,35 @@ func (c *Ctx) Extra() map[string]interface{} {
 // Debug dumps an engine run.
 func Debug(c *Ctx, what string) {
 	switch what {
+	case "stats":
+		SummaryStats(c)
+	case "afmt":
+		a := c.AFmt()
+		lab := c.Labels()
+		fmt.Println("summaries", len(a.It.Summaries), "states", a.It.States, "steps", a.It.Steps, "rounds", a.It.Rounds(), "undecided", a.It.Undecided)
+		for _, r := range a.Roots {
+			fmt.Printf("ROOT %s [%s]\n", r.Fn, r.Entry)
+			if r.Sum == nil {
+				fmt.Println("   no summary")
+				continue
+			}
+			for _, o := range r.Sum.SortedOutcomes() {
+				fmt.Printf("   -> exc=%v ret=%s heap=%s\n", o.Exc, o.Ret.Key(), o.Heap)
+			}
+		}
+		var ks []string
+		for k := range a.It.Events {
+			ks = append(ks, k)
+		}
+		sort.Strings(ks)
+		for _, k := range ks {
+			e := a.It.Events[k]
+			ls := ""
+			for _, v := range e.Args {
+				ls += lab.Of(v).String() + ","
+			}
+			fmt.Printf("EV %s %s %s %v labels=[%s]\n", e.Kind, c.P.Pos(e.Instr.Pos()), shortFn(e.Fn.String()), e.Detail, ls)
+		}
 	case "abuf":
 		a := c.ABuf()
 		fmt.Println("summaries", len(a.It.Summaries), "states", a.It.States, "steps", a.It.Steps, "rounds", a.It.Rounds(), "undecided", a.It.Undecided)
@@ -45,5 +74,41 @@ func Debug(c *Ctx, what string) {
 			e := a.It.Events[k]
 			fmt.Printf("EV %s %s ok=%s cfg=%s :: %s\n", e.Kind, c.P.Pos(e.Instr.Pos()), e.Detail["ok"], e.Detail["cfg"], e.Detail["what"])
 		}
+	}
+}
+
+// SummaryStats prints the number of summaries per function.
+func SummaryStats(c *Ctx) {
+	a := c.AFmt()
+	cnt := map[string]int{}
+	for _, s := range a.It.Summaries {
+		cnt[shortFn(s.Fn.String())]++
+	}
+	type kv struct {
+		k string
+		v int
+	}
+	var l []kv
+	for k, v := range cnt {
+		l = append(l, kv{k, v})
+	}
+	sort.Slice(l, func(i, j int) bool { return l[i].v > l[j].v })
+	for i, e := range l {
+		if i > 15 {
+			break
+		}
+		fmt.Println(e.v, e.k)
+	}
+	l = nil
+	for k, v := range a.It.StatesByFn {
+		l = append(l, kv{shortFn(k), v})
+	}
+	sort.Slice(l, func(i, j int) bool { return l[i].v > l[j].v })
+	fmt.Println("states by function:")
+	for i, e := range l {
+		if i > 25 {
+			break
+		}
+		fmt.Println(e.v, e.k)
 	}
 }
